@@ -9,10 +9,12 @@ A *case* is explicit and JSON-able (it is what replay files contain):
 """
 from . import core
 
-FORM_NAMES = ['fa', 'fb', 'fc', 'w', 'k-1', 'x_2', '9a', 'sch_b', '10z']
-INPUT_NAMES = ['a', 'b', 'c', 'n', 'x_1', 'amt', 'flag', 'kind', 'id', 'note', 'zip', 'box_1', 'q2']
+FORM_NAMES = ['fa', 'fb', 'fc', 'w', 'k-1', 'x_2', '9a', 'sch_b', '10z', '1040']
+INPUT_NAMES = ['a', 'b', 'c', 'n', 'x_1', 'amt', 'flag', 'kind', 'id', 'note', 'zip', 'box_1', 'q2', 'x1', 'box1']
 LINE_NAMES = ['1', '1a', '1b', '2', '2a', '3', '4z', '10', '11', '12', 'x_3', 'tot', 'chk',
-              'part_3', '25d', '7_checkbox']
+              'part_3', '25d', '7_checkbox',
+              # names whose natural-sort key equals another one's (1a, 2, x_3): order ties must not merge them
+              '1_a', '02', 'x3']
 ENUMS = {'E1': ['alpha', 'beta', 'gamma'], 'E2': ['beta', 'delta']}
 INSTANCES = ['0', '1', '2']
 
@@ -390,7 +392,7 @@ class Gen(object):
             if f == 'none':
                 node = ['none']
             elif f == 'blank':
-                node = ['blank', rng.pick(['', ' ', '\t '])]
+                node = ['blank', rng.pick(['', ' ', '\t ', '\u3000', '\u2028\u2003', '\x1f', '\xa0 ', '\n'])]
             else:
                 node = ['wrong', rng.pick(WRONG_KINDS[line['type']])]
             if rng.chance(0.3):
@@ -495,12 +497,13 @@ def gen_case(seed, force_faults=None, clean=None, defaults=False, percent=False)
                 txt, typed = render_value(r_p, ispec)
                 persona[qual(fs, inst, ispec['name'])] = {'text': txt, 'typed': typed, 'invalid': False}
     if percent:
-        # a text value containing % (written %% in the file): legal input, but a solution cannot hold it - loud failure
+        # a text value containing % (written %% in the file): legal input, and the solution has to carry it
         strs = sorted(n for n in persona if (lambda sp: sp and sp['type'] == 'str')(
             next((i for f in world['forms'] if f['name'] == n.split('.')[0].split(':')[0] for i in f['inputs'] if i['name'] == n.split('.')[1]), None)))
         if strs:
             n = r_p.pick(strs)
-            persona[n] = {'text': 'Fifty% Off Outlet', 'typed': ['s', 'Fifty% Off Outlet'], 'invalid': False}
+            t = r_p.pick(['Fifty% Off Outlet', '100%% sure', 'a%(b)s', '%'])
+            persona[n] = {'text': t, 'typed': ['s', t], 'invalid': False}
     # stray sections: an instanced form's inputs also given under the un-instanced section name (nobody reads those)
     if r_p.chance(0.15):
         for fs in world['forms']:
